@@ -121,6 +121,41 @@ theorem state_limits_between_ops (c : Ctx) (fl : Flags) (hh : HashesOK c.env.has
   rw [hs] at this
   exact this
 
+/-- the loop of `_EvalScript` over `pre ++ rest` is the loop over `pre` followed by the loop over `rest`
+    from the state reached (the iterator error, if any, is met after the last operation) -/
+theorem loop_append (c : Ctx) (fl : Flags) (script : Bytes) (tail : Option Model.Script.IterErr)
+    (pre rest : List Model.Script.RawOp) (st : St) :
+    loop c fl script tail (pre ++ rest) st =
+      (loop c fl script none pre st >>= fun st' => loop c fl script tail rest st') := by
+  induction pre generalizing st with
+  | nil => simp [loop, bind, Except.bind]
+  | cons op pre ih =>
+    simp only [List.cons_append, loop, bind, Except.bind]
+    cases step c fl script op st with
+    | error e => rfl
+    | ok st' => simpa [bind, Except.bind] using ih st'
+
+/-- `state_limits_between_ops` lifted over the whole run of `EvalScript(stack, script, …)`: split the
+    operations of the script anywhere, `pre ++ rest`; if the run reaches the head of the iteration that
+    would execute `rest` (i.e. the loop over `pre` returns a state), that state is within the TIGHT
+    limits — at most 1000 items on stack and altstack together, at most 201 counted operations, no
+    element longer than max(520, caller's elements).  By `loop_append` the run of the whole script is
+    the run over `pre` followed by the run over `rest` from that state.  The three chained evaluations of
+    `VerifyScript` each start from a stack within these limits (`eval_state_limits`), so the statement
+    applies to each of them. -/
+theorem state_limits_every_iteration (c : Ctx) (fl : Flags) (hh : HashesOK c.env.hashes) (script : Bytes)
+    (hlen : script.length ≤ Spec.MAX_SCRIPT_SIZE) (stack : List Bytes) (B : Nat) (hB : 520 ≤ B) (hB2 : B < 2 ^ 32)
+    (hs : stack.length ≤ 1000) (he : ∀ x ∈ stack, x.length ≤ B)
+    (pre rest : List Model.Script.RawOp) (hops : (Model.Script.rawIter script).1 = pre ++ rest) (st' : St)
+    (hrun : loop c fl script none pre ⟨stack, [], [], 0, 0⟩ = .ok st') :
+    st'.stack.length + st'.alt.length ≤ 1000 ∧ st'.nOpCount ≤ 201 ∧
+    (∀ x ∈ st'.stack, x.length ≤ B) ∧ (∀ x ∈ st'.alt, x.length ≤ B) := by
+  have hpre : Pre B ⟨stack, [], [], 0, 0⟩ := ⟨by simp; omega, by simp, he, fun x hx => by simp at hx⟩
+  have := loop_ok (c := c) fl script hlen none pre
+    (fun o ho => rawIter_data script o (by rw [hops]; exact List.mem_append_left _ ho)) hB hB2 hh _ hpre
+  rw [hrun] at this
+  exact this
+
 /-! ### non-vacuity -/
 
 /-- a context meeting the hypotheses: 20-byte hashes, index 0 of a 1-input transaction -/
